@@ -23,6 +23,7 @@ var errInvalidPrefix = errors.New("route: prefix must not be empty")
 var errInvalidTarget = errors.New("route: target must not be empty")
 var errNoMatch = errors.New("route: no target match")
 var errInvalidWeight = errors.New("route: invalid weight")
+var errNoRouteDefs = errors.New("route: no route definitions")
 
 // validWeight reports whether w is a usable weight, i.e. a finite number.
 func validWeight(w float64) bool {
@@ -126,6 +127,9 @@ func NewTable(b *bytes.Buffer) (t Table, err error) {
 }
 
 func NewTableCustom(defs *[]RouteDef) (t Table, err error) {
+	if defs == nil {
+		return nil, errNoRouteDefs
+	}
 
 	t = make(Table)
 	for _, d := range *defs {
